@@ -491,6 +491,8 @@ def episode(ctx, t, prop, family, tools, memo, mm, rep):
         ctx.probe("multi-file")
     if getattr(w, "repeated_targets", False):
         ctx.probe("list-with-a-repeated-target")
+    if getattr(w, "split_lists", False):
+        ctx.probe("list-assigned-at-two-places-of-the-rule")
     if outcome == "error":
         ctx.probe("load-failed")
     ctx.sig = [family, mode, sched.trace]
